@@ -182,6 +182,36 @@ impl Rec {
         }
     }
 
+    /// The closure that creates a future-based operation's future has just been invoked: this already hands out `&mut T`,
+    /// so it must happen inside the operation's exclusive, ordered slot (and, for future_sync, only once the returned future
+    /// is being awaited, never inside the scheduling call)
+    pub fn closure_called(&self, op: OpId, st: &ObjState) {
+        let mut msgs = vec![];
+        {
+            let ops = self.ops.lock().unwrap();
+            let me = &ops[op];
+            if st.occupancy() != 0 {
+                msgs.push(format!("OVERLAP the closure of {} was invoked on object {} while {} other operation(s) were inside", me.name, st.id, st.occupancy()));
+            }
+            if me.kind == Kind::FutureSync && me.ret.is_none() {
+                msgs.push(format!("CANCEL the closure of {} (FS) was invoked inside the scheduling call, before the returned future was awaited", me.name));
+            }
+            for (i, a) in ops.iter().enumerate() {
+                if i == op || a.obj != me.obj {
+                    continue;
+                }
+                if let Some(r) = a.ret {
+                    if r < me.inv && a.accepted == Some(true) && a.ends.is_empty() && !(a.may_not_run && a.starts.is_empty()) {
+                        msgs.push(format!("ORDER {} (call returned at {}) had not finished when the closure of {} (invoked at {}) was called", a.name, r, me.name, me.inv));
+                    }
+                }
+            }
+        }
+        for m in msgs {
+            rt::violation(m);
+        }
+    }
+
     /// The op finished: closure returned, future completed, or future destroyed
     pub fn end(&self, op: OpId, cancelled: bool) {
         let t = rt::tick();
@@ -420,6 +450,42 @@ impl Drop for AsyncSpan {
             self.st.exit_named(&self.name);
             self.rec.end(self.op, true);
         }
+    }
+}
+
+/// A user future whose *destructor* still uses the `&mut T` it borrowed (hand-written futures may; async blocks drop their
+/// locals inside the final poll): the destructor enters the object, opens a scheduling point and leaves.  It must always run
+/// inside the operation's exclusive slot.
+pub struct DropTouch<F> {
+    inner: Option<Pin<Box<F>>>,
+    st: Arc<ObjState>,
+    name: String,
+}
+
+impl<F: Future> DropTouch<F> {
+    pub fn new(inner: F, st: &Arc<ObjState>, name: &str) -> DropTouch<F> {
+        DropTouch { inner: Some(Box::pin(inner)), st: st.clone(), name: format!("{}/destructor", name) }
+    }
+}
+
+impl<F: Future> Future for DropTouch<F> {
+    type Output = F::Output;
+    fn poll(mut self: Pin<&mut Self>, cx: &mut Context) -> Poll<F::Output> {
+        self.inner.as_mut().unwrap().as_mut().poll(cx)
+    }
+}
+
+impl<F> Drop for DropTouch<F> {
+    fn drop(&mut self) {
+        // the wrapped future goes first (an operation cancelled mid-way leaves the object there)
+        drop(self.inner.take());
+        if self.st.dead.load(AO::SeqCst) != 0 {
+            rt::violation(format!("USE-AFTER-DROP {} ran on object {} after its value was destroyed", self.name, self.st.id));
+            return;
+        }
+        self.st.enter(&self.name);
+        vthread::yield_now();
+        self.st.exit_named(&self.name);
     }
 }
 
@@ -682,23 +748,32 @@ impl World {
         let fut = match o {
             Obj::Raw(q, st) => {
                 let (rec2, st) = (rec.clone(), st.clone());
-                scheduler::future_desync(q, move || async move {
-                    run_async(body, rec2, op, st, nm).await;
-                    token
+                scheduler::future_desync(q, move || {
+                    rec2.closure_called(op, &st);
+                    async move {
+                        run_async(body, rec2, op, st, nm).await;
+                        token
+                    }
                 })
             }
             Obj::D(d, _) => {
                 let rec2 = rec.clone();
                 d.future_desync(move |p| {
-                    async move {
-                        p.check(&nm);
-                        let st = p.st.clone();
-                        run_async(body, rec2, op, st.clone(), nm).await;
-                        if st.dead.load(AO::SeqCst) == 0 {
-                            p.log.push(op);
-                        }
-                        token
-                    }
+                    rec2.closure_called(op, &p.st);
+                    let (st0, nm0) = (p.st.clone(), nm.clone());
+                    DropTouch::new(
+                        async move {
+                            p.check(&nm);
+                            let st = p.st.clone();
+                            run_async(body, rec2, op, st.clone(), nm).await;
+                            if st.dead.load(AO::SeqCst) == 0 {
+                                p.log.push(op);
+                            }
+                            token
+                        },
+                        &st0,
+                        &nm0,
+                    )
                     .boxed()
                 })
             }
@@ -748,22 +823,33 @@ impl World {
         let fut: BoxFuture<'a, Result<u64, futures::channel::oneshot::Canceled>> = match o {
             Obj::Raw(q, st) => {
                 let (rec2, st) = (rec.clone(), st.clone());
-                scheduler::future_sync(q, move || async move {
-                    run_async(body, rec2, op, st, nm).await;
-                    token
+                // (no destructor probe here: at the scheduler level SyncFuture drops the user's future after it has released the
+                // queue; nothing borrowed from a Desync is involved, and the properties' span ends when the future completes)
+                scheduler::future_sync(q, move || {
+                    rec2.closure_called(op, &st);
+                    async move {
+                        run_async(body, rec2, op, st, nm).await;
+                        token
+                    }
                 })
                 .boxed()
             }
             Obj::D(d, _) => {
                 let rec2 = rec.clone();
                 d.future_sync(move |p| {
-                    async move {
-                        p.check(&nm);
-                        let st = p.st.clone();
-                        run_async(body, rec2, op, st, nm).await;
-                        p.log.push(op);
-                        token
-                    }
+                    rec2.closure_called(op, &p.st);
+                    let (st0, nm0) = (p.st.clone(), nm.clone());
+                    DropTouch::new(
+                        async move {
+                            p.check(&nm);
+                            let st = p.st.clone();
+                            run_async(body, rec2, op, st, nm).await;
+                            p.log.push(op);
+                            token
+                        },
+                        &st0,
+                        &nm0,
+                    )
                     .boxed()
                 })
                 .boxed()
